@@ -239,4 +239,11 @@ def run(repo, tier):
     res.floor('MERGE', 10)
     res.floor('FWD', 8)
     res.exhaustive_rules = ['SCHED over every as_completed loop in the package (all completion orders by commutation)']
+    from .common import apply_specs
+    apply_specs(repo, res, [
+        ('photutils.segmentation.deblend.deblend_sources', 'stmt', 'label_indices = segment_img.get_indices(labels)',
+         'the slices/labels of the selected sources are looked up by label value (indices into segment_img.labels)'),
+        ('photutils.segmentation.deblend._SingleSourceDeblender.deblend_source', 'test', 'len(_get_labels(markers)) == 1',
+         'the "nothing to deblend" test counts the markers that SURVIVED the watershed/contrast pruning'),
+    ])
     return res
